@@ -16,7 +16,7 @@ Record bobs := mkObs {
 
 Inductive hstep :=
 | HOp (o : op)
-| HBuild (ts : list name) (expect : bobs).
+| HBuild (always : bool) (ts : list name) (expect : bobs).
 
 Record hcase := mkHist {
   h_rules : list rule;
@@ -71,8 +71,8 @@ Fixpoint replay (w : world) (steps : list hstep) (i : nat) : nat :=
   match steps with
   | [] => 0
   | HOp o :: r => replay (step w o) r (S i)
-  | HBuild ts e :: r =>
-      match build ts w with
+  | HBuild always ts e :: r =>
+      match build_with always ts w with
       | (w', ex, res) => if obs_match w' ex res e then replay w' r (S i) else S i
       end
   end.
@@ -85,7 +85,11 @@ Definition results (cs : list hcase) : list nat := map check_hist cs.
 (** Does every build of the history stay in the scope of the theorems
     ([hist_in_scope])? 1 = yes. *)
 Definition ops_of (steps : list hstep) : list op :=
-  map (fun s => match s with HOp o => o | HBuild ts _ => OBuild ts end) steps.
+  map (fun s => match s with
+                | HOp o => o
+                | HBuild false ts _ => OBuild ts
+                | HBuild true ts _ => OBuildAlways ts
+                end) steps.
 
 Definition in_scope (c : hcase) : nat :=
   if hist_in_scopeb (ops_of (h_steps c)) (empty_world (h_rules c) (h_src c)) then 1 else 0.
@@ -98,8 +102,8 @@ Fixpoint model_trace (w : world) (steps : list hstep) : list (nat * nat) :=
   match steps with
   | [] => []
   | HOp o :: r => model_trace (step w o) r
-  | HBuild ts _ :: r =>
-      match build ts w with
+  | HBuild always ts _ :: r =>
+      match build_with always ts w with
       | (w', ex, res) =>
           (List.length ex, match res with BOk => 0 | BLoadErr _ => 1 | BFail _ => 2 | BOutOfFuel => 3 end)
             :: model_trace w' r
